@@ -461,3 +461,6 @@ Proof.
     rewrite (shm_read_ok c2 (takeN k obj) (dropN k obj)); [exact B2| rewrite B2, takeN_dropN; reflexivity].
 Qed.
 
+
+Lemma prun_inv_init : forall n sched, pinv (fst (prun (pinit n) sched)).
+Proof. intros. apply prun_inv. apply pinv_init. Qed.
